@@ -79,6 +79,9 @@ thread_local! {
     static QUIET: Cell<bool> = const { Cell::new(false) };
     static IN_GET: Cell<bool> = const { Cell::new(false) };
     static ELEM_SEEN: Cell<bool> = const { Cell::new(false) };
+    /// the running operation has passed an acquire point (element callbacks before that - e.g. the clone of
+    /// the needle that contains / index make before they take the lock - are not accesses to the list)
+    static ACQ_SEEN: Cell<bool> = const { Cell::new(false) };
     static CAPTURE: Cell<Option<usize>> = const { Cell::new(None) };
     static CAPTURE_RAW: Cell<Option<usize>> = const { Cell::new(None) };
     static CAPTURING: Cell<bool> = const { Cell::new(false) };
@@ -123,6 +126,7 @@ fn hook(kind: &'static str, a: usize, _b: usize) {
         "bind" => {}
         "acquire" => {
             park(&c, tid, "acquire", a);
+            ACQ_SEEN.with(|e| e.set(true));
             let mut st = c.m.lock().unwrap();
             st.th[tid].cur_list = a;
         }
@@ -165,7 +169,7 @@ fn elem_point() {
         return;
     }
     let Some(tid) = TID.with(|t| t.get()) else { return };
-    if QUIET.with(|q| q.get()) || ELEM_SEEN.with(|e| e.replace(true)) {
+    if QUIET.with(|q| q.get()) || !ACQ_SEEN.with(|e| e.get()) || ELEM_SEEN.with(|e| e.replace(true)) {
         return;
     }
     let Some(c) = ctl() else { return };
@@ -285,6 +289,7 @@ fn worker(c: Arc<Ctl>, tid: usize, lists: Vec<L>, rev: bool, f: Funcs) {
             }
         };
         ELEM_SEEN.with(|e| e.set(false));
+        ACQ_SEEN.with(|e| e.set(false));
         let r = std::panic::catch_unwind(std::panic::AssertUnwindSafe(|| run_op(&cmd, &lists, rev, &f)));
         let v = match r {
             Ok(v) => v,
